@@ -41,6 +41,8 @@ def DataOK (_ : State) : Op → Bool
   | .apply _ fail _ => !fail
   | .flushBegin _ sh => sh == 0
   | .flushEnd _ sh => sh == 0
+  | .restartLate _ => false     -- the start-up replay racing with the commit loop: see `replayRaceRun_stale`
+  | .replayLate _ => false
   | _ => true
 
 variable {s s' : State}
@@ -646,6 +648,8 @@ theorem dataInv_step {o : Op} (hL : LogInv s) (hL' : LogInv s') (h : DataInv s) 
   · exact dataInv_truncBySize h hs
   · exact dataInv_kill h hs
   · exact dataInv_restart hL hL' h hs
+  · simp [DataOK] at hok
+  · simp [DataOK] at hok
   · exact dataInv_raftLead h hs
   · exact dataInv_metaDown h hs
   · exact dataInv_metaUp h hs
